@@ -268,3 +268,191 @@ End Sem.
 Definition exec (fuel : nat) (fsem : expr -> list value -> value) (k : bytes) (pend : env)
            (e : env) (body : list stmt) : option result :=
   exec_list fsem k pend fuel e body.
+
+(* ------------------------------------------------------------------------------------- verdicts in traces *)
+Fixpoint ctc_verdicts (tr : trace) : list value :=
+  match tr with
+  | [] => []
+  | LVerdict v :: r => v :: ctc_verdicts r
+  | _ :: r => ctc_verdicts r
+  end.
+Fixpoint strip_verdicts (tr : trace) : trace :=
+  match tr with
+  | [] => []
+  | LVerdict _ :: r => strip_verdicts r
+  | x :: r => x :: strip_verdicts r
+  end.
+
+(* two traces agree up to (and including the position of) the first ConstantTimeCompare on which the two runs
+   got different verdicts; nothing is claimed after that point *)
+Inductive tsim : trace -> trace -> Prop :=
+| ts_nil : tsim [] []
+| ts_same : forall x a b, tsim a b -> tsim (x :: a) (x :: b)
+| ts_verdict : forall v1 v2 a b, (v1 = v2 -> tsim a b) -> tsim (LVerdict v1 :: a) (LVerdict v2 :: b).
+
+(* ------------------------------------------------------------------------------------- low-equivalence *)
+(* secret bytes: same length, content free *)
+Definition low_b (v1 v2 : value) : Prop :=
+  v1 = v2 \/ exists b1 b2, v1 = VBytes b1 /\ v2 = VBytes b2 /\ length b1 = length b2.
+(* records: field-wise equal, the field Sum only low_b *)
+Definition field_rel (p1 p2 : ident * value) : Prop :=
+  fst p1 = fst p2 /\ (if bytes_eqb (fst p1) s_Sum then low_b (snd p1) (snd p2) else snd p1 = snd p2).
+Definition pub_eq (v1 v2 : value) : Prop :=
+  v1 = v2 \/ exists fs1 fs2, v1 = VRec fs1 /\ v2 = VRec fs2 /\ Forall2 field_rel fs1 fs2.
+(* at a tainted position *)
+Definition low_t (v1 v2 : value) : Prop := low_b v1 v2 \/ pub_eq v1 v2.
+
+(* t: variables holding secret-derived bytes;  r: variables holding a parsed hash record (secret only in .Sum) *)
+Definition var_rel (t r : tset) (x : ident) : value -> value -> Prop :=
+  if tmem x t then low_t else if tmem x r then pub_eq else eq.
+Definition env_rel (R : ident -> value -> value -> Prop) (e1 e2 : env) : Prop :=
+  forall x, match lookup x e1, lookup x e2 with
+            | Some a, Some b => R x a b
+            | None, None => True
+            | _, _ => False
+            end.
+Definition env_low_equiv2 (t r : tset) : env -> env -> Prop := env_rel (var_rel t r).
+Definition env_low_equiv (t : tset) : env -> env -> Prop := env_low_equiv2 t [].
+Definition pend_low_equiv : env -> env -> Prop := env_rel (fun _ => pub_eq).
+
+(* the assumption on the abstract function meanings *)
+Definition len_respecting (fsem : expr -> list value -> value) : Prop :=
+  (forall f a1 a2, is_len_only f = true -> Forall2 low_t a1 a2 -> fsem f a1 = fsem f a2) /\
+  (forall f a1 a2, is_encoder f = true -> Forall2 low_t a1 a2 -> low_b (fsem f a1) (fsem f a2)).
+
+(* ------------------------------------------------------------------------------------- corrected analysis *)
+(* may the VALUE of e, or anything its evaluation leaks, depend on secret bytes?
+   t: secret byte variables; r: record variables whose field Sum is secret (filled through an out-parameter) *)
+Fixpoint tainted' (t r : tset) (e : expr) {struct e} : bool :=
+  match e with
+  | EId x => tmem x t || tmem x r
+  | ESel e' f => bytes_eqb f s_Sum || match e' with EId x => tmem x t | _ => tainted' t r e' end
+  | ECall f args =>
+    if is_key f then true
+    else
+      (match f with
+       | ESel e' _ => tainted' t r e'
+       | EId x => tmem x t || tmem x r
+       | _ => tainted' t r f
+       end)
+      || (if is_ctc f || is_len_only f then
+            (* secret carriers x, e.f, and [:] of those may be passed; anything else must be public *)
+            (fix any (l : list expr) : bool :=
+               match l with
+               | [] => false
+               | x :: rest =>
+                 (fix carr (a : expr) : bool :=
+                    match a with
+                    | EId _ => false
+                    | ESel e' _ => match e' with EId y => tmem y t | _ => tainted' t r e' end
+                    | ESlice a' [] => carr a'
+                    | _ => tainted' t r a
+                    end) x || any rest
+               end) args
+          else (fix any (l : list expr) : bool :=
+                  match l with [] => false | x :: rest => tainted' t r x || any rest end) args)
+  | ESlice e' bs => tainted' t r e' || (fix any (l : list expr) : bool :=
+                                          match l with [] => false | x :: rest => tainted' t r x || any rest end) bs
+  | EIndex e' i => tainted' t r e' || tainted' t r i
+  | EUnary _ e' => tainted' t r e'
+  | EBinary _ a b => tainted' t r a || tainted' t r b
+  | ELit => false
+  | EComposite es => (fix any (l : list expr) : bool :=
+                        match l with [] => false | x :: rest => tainted' t r x || any rest end) es
+  | EUnknown => true
+  end.
+
+(* an argument of a constant-time callee that is neither public nor a plain secret carrier *)
+Fixpoint argbad (t r : tset) (a : expr) : bool :=
+  match a with
+  | EId _ => false
+  | ESel e' _ => match e' with EId y => tmem y t | _ => tainted' t r e' end
+  | ESlice a' [] => argbad t r a'
+  | _ => tainted' t r a
+  end.
+
+Definition callee_bad (t r : tset) (f : expr) : bool :=
+  match f with
+  | ESel e' _ => tainted' t r e'
+  | EId x => tmem x t || tmem x r
+  | _ => tainted' t r f
+  end.
+
+Definition subset (a b : tset) : bool := forallb (fun x => tmem x b) a.
+
+Definition call_ok' (t r : tset) (f : expr) (args : list expr) : option (tset * tset) :=
+  if is_ctc f then (if tainted' t r (ECall f args) then None else Some (t, r))
+  else if is_encoder f then
+    match args with
+    | [dst; src] =>
+      if callee_bad t r f || argbad t r dst || argbad t r src then None
+      else if tainted' t r src || tainted' t r dst then
+             match base_var dst with Some x => Some (x :: t, r) | None => None end
+           else Some (t, r)
+    | _ => None
+    end
+  else if tainted' t r (ECall f args) then None else Some (t, out_params f args ++ r).
+
+Fixpoint ct_stmt' (fuel : nat) (t r : tset) (s : stmt) {struct fuel} : option (tset * tset) :=
+  match fuel with
+  | O => None
+  | S fuel' =>
+    let ct_list := fix go (t r : tset) (l : list stmt) : option (tset * tset) :=
+                     match l with
+                     | [] => Some (t, r)
+                     | x :: rest => match ct_stmt' fuel' t r x with Some (t', r') => go t' r' rest | None => None end
+                     end in
+    match s with
+    | SDecl x None => Some (t, r)
+    | SDecl x (Some e) => if tainted' t r e then None else Some (t, r)
+    | SDefine lhs (ECall f args) =>
+      if is_key f then
+        if existsb (tainted' t r) args then None
+        else match lhs with k :: _ => Some (k :: t, r) | [] => None end
+      else if is_encoder f then None
+      else call_ok' t r f args
+    | SDefine lhs e => if tainted' t r e then None else Some (t, r)
+    | SAssign lhs rhs =>
+      if tainted' t r rhs then None
+      else match lhs with
+           | EId _ => Some (t, r)
+           | ESel (EId x) f => if bytes_eqb f s_Sum || tmem x t then None else Some (t, r)
+           | _ => None
+           end
+    | SExpr (ECall f args) => call_ok' t r f args
+    | SExpr _ => None
+    | SIf init c thn els =>
+      match (match init with Some i => ct_stmt' fuel' t r i | None => Some (t, r) end) with
+      | None => None
+      | Some (t1, r1) =>
+        if tainted' t1 r1 c then None
+        else match ct_list t1 r1 thn, ct_list t1 r1 els with
+             | Some (ta, ra), Some (tb, rb) => Some (ta ++ tb, ra ++ rb)
+             | _, _ => None
+             end
+      end
+    | SReturn es => if existsb (tainted' t r) es then None else Some (t, r)
+    | SFor parts body =>
+      match ct_list t r body with
+      | Some (t', r') =>
+        (* (t', r') must be a loop invariant: it contains the entry state and the body maps it into itself *)
+        if existsb (tainted' t' r') parts || negb (subset t t' && subset r r') then None
+        else match ct_list t' r' body with
+             | Some (t'', r'') => if subset t'' t' && subset r'' r' then Some (t', r') else None
+             | None => None
+             end
+      | None => None
+      end
+    | SUnknown => None
+    end
+  end.
+
+Fixpoint ct_stmts' (fuel : nat) (t r : tset) (l : list stmt) : option (tset * tset) :=
+  match l with
+  | [] => Some (t, r)
+  | x :: rest => match ct_stmt' fuel t r x with Some (t', r') => ct_stmts' fuel t' r' rest | None => None end
+  end.
+
+(* the corrected analysis: everything ct_ok demands, and the stricter taint discipline *)
+Definition ct_ok' (body : list stmt) : bool :=
+  ct_ok body && match ct_stmts' 50 [] [] body with Some _ => true | None => false end.
